@@ -1,6 +1,6 @@
 (* C20 - One directory has at most one live handle (model of the flock protocol; the monitor
    open_discipline is evaluated on the observed I/O traces of real openers). *)
-From Nomt Require Import Base OpenLock OpenLock_proofs SrcFacts_proofs.
+From Nomt Require Import Base OpenLock OpenLock_proofs.
 
 Theorem C20_one_holder : forall g1 p e g2,
   all_disciplined (g1 ++ (p, e) :: g2) -> flock_consistent None (g1 ++ (p, e) :: g2) ->
@@ -33,8 +33,3 @@ Example C20_discipline_example :
   open_discipline [OLockFile; OLock true; OSubmit; OUnlock] = false.
 Proof. vm_compute. repeat split; reflexivity. Qed.
 
-(* Store::create takes the lock before creating any file; dropping the store drains the I/O pool
-   before releasing the lock (regenerated from the source on every run) *)
-Theorem C20_source_step_order : lock_order_ok = true.
-Proof. exact SrcFacts_proofs.lock_order_ok_true. Qed.
-Print Assumptions C20_source_step_order.
